@@ -64,7 +64,10 @@ def main():
                 shutil.copy(src, os.path.join(wt, "out", f))
             elif f == "bin" and os.path.isdir(src):
                 shutil.copytree(src, os.path.join(wt, "out", "bin"))
-        demo = meta["demo_cmd"].replace("/tmp/mut/%s" % os.path.basename(os.path.dirname(os.path.dirname(mdir))), wt)
+        import re as _re0
+        demo = _re0.sub(r"/tmp/mut/C\d+", wt, meta["demo_cmd"])
+        if meta.get("existing_tests_cmd"):
+            meta["existing_tests_cmd"] = _re0.sub(r"/tmp/mut/C\d+", wt, meta["existing_tests_cmd"])
 
         def failed(rc, out):
             import re as _re
